@@ -19,8 +19,12 @@ def attr_cases():
             if url == "wss" and tlscfg == "n":
                 continue   # cannot verify the test certificate
             enc = "tls" if url == "wss" else "none"
-            out.append({"cfg": {"kind": "wsattr", "k": 0, "url": url, "tlscfg": tlscfg},
-                        "obs": [{"op": "attr", "side": url, "res": "cli:%s,srv:%s" % (enc, enc), "v": 0}]})
+            obs = [{"op": "attr", "side": url, "res": "cli:%s,srv:%s" % (enc, enc), "v": 0}]
+            for end in ("cli", "srv"):      # a websocket connection keeps the encryption it was opened with
+                for e in ("none", "tls"):
+                    obs.append({"op": "setenc", "side": url, "v": 0,
+                                "res": "%s:%s:%s:%s" % (end, e, "ok" if e == enc else "err", enc)})
+            out.append({"cfg": {"kind": "wsattr", "k": 0, "url": url, "tlscfg": tlscfg}, "obs": obs})
     out.append({"cfg": {"kind": "wsclose", "k": 0}, "obs": [{"op": "attr", "side": "wsclose", "res": "closed", "v": 0}]})
     return out
 
